@@ -246,6 +246,28 @@ def Mgr.handleAlive (g : Mgr) (m : Nat) (inc : Nat) : Mgr :=
     let (s', ok) := refute g.st m inc
     if ok then { g with st := s', suspicions := g.suspicions.filter (· ≠ m) } else g
 
+/-- the gossip messages that touch the CRDT (plus `add_peer`) -/
+inductive Msg where
+  | sync (sender : Nat) (states : List Update) (senderTime : Nat)
+  | suspect (m : Nat) (inc : Nat)
+  | alive (m : Nat) (inc : Nat)
+  | addPeer (p : Nat)
+
+/-- `handle_gossip` -/
+def Mgr.handle (g : Mgr) : Msg → Mgr
+  | .sync s b t => g.handleSync s b t
+  | .suspect m i => g.handleSuspect m i
+  | .alive m i => g.handleAlive m i
+  | .addPeer p => g.addPeer p
+
+def Mgr.run (g : Mgr) (msgs : List Msg) : Mgr := msgs.foldl Mgr.handle g
+
+/-- the `states` payloads of the Sync messages in a list, flattened -/
+def syncPayload : List Msg → List Update
+  | [] => []
+  | .sync _ b _ :: ms => b ++ syncPayload ms
+  | _ :: ms => syncPayload ms
+
 /-! ### the multi-node system: only member `m` announces incarnations for `m` -/
 
 structure Sys where
